@@ -344,6 +344,59 @@ Section DeltaModel.
 
   Definition m_init : mst := mkMS kempty (fun _ => true) [] [] 0 0 false kempty.
 
+  (* ---------------- paginated map subscribe, wire level (correspondence only) ----------------
+     What each reply of a PAGINATED map subscribe of a delta subscriber carries, given what the
+     broker returned for it: state pages and intermediate stream pages are full payloads, the
+     publications of the live transition (stream read merged with the subscribe buffer) are a
+     per-key chain starting from nothing, a live broadcast is a delta against the broker's previous
+     entry of the key.  That the client then holds the right base is
+     Proofs/DeltaMapSub.v (over the protocol model of C22). *)
+  Inductive qact :=
+  | QWrite (p : mpub)                        (* writer op that is not pushed live to the client (not live, or buffered) *)
+  | QStart                                   (* first request of a full subscribe: the client forgets what it held *)
+  | QPage (es : list (nat * bytes))          (* state page entries as returned by the broker *)
+  | QStream (ps : list mpub)                 (* intermediate stream page *)
+  | QLive (ps : list mpub)                   (* publications of the reply that goes live *)
+  | QPush (p : mpub).                        (* live broadcast delivered to the client *)
+
+  Record qst := mkQ { q_state : kmap; q_held : kmap }.
+
+  Definition q_step (st : qst) (a : qact) : qst * list mevent :=
+    match a with
+    | QWrite p => (mkQ (kset (q_state st) (mk p) (mdata p)) (q_held st), [])
+    | QStart => (mkQ (q_state st) kempty, [])
+    | QPage es =>
+        let '(h', ev) := mclient_feed (q_held st) (map (fun e => (fst e, Some (full_pub (snd e)), Some (snd e))) es) in
+        (mkQ (q_state st) h', ev)
+    | QStream ps =>
+        let '(h', ev) := mclient_feed (q_held st) (map (fun p => (mk p, option_map full_pub (mdata p), mdata p)) ps) in
+        (mkQ (q_state st) h', ev)
+    | QLive ps =>
+        let '(h', ev) := mclient_feed (q_held st) (combine (make_recovered_map kempty ps) (map mdata ps)) in
+        (mkQ (q_state st) h', ev)
+    | QPush p =>
+        let prev := if mud p then q_state st (mk p) else None in
+        let state' := kset (q_state st) (mk p) (mdata p) in
+        match mdata p with
+        | None => (mkQ state' (kset (q_held st) (mk p) None), [])
+        | Some d =>
+            let w := get_delta_pub prev d in
+            (mkQ state' (kset (q_held st) (mk p) (client_step (q_held st (mk p)) w)),
+             [mkME (mk p) (q_held st (mk p)) w d])
+        end
+    end.
+
+  Fixpoint q_run (st : qst) (l : list qact) : qst * list mevent :=
+    match l with
+    | [] => (st, [])
+    | a :: t =>
+        let '(st1, e1) := q_step st a in
+        let '(st2, e2) := q_run st1 t in
+        (st2, e1 ++ e2)
+    end.
+
+  Definition q_init : qst := mkQ kempty kempty.
+
   Fixpoint replay (h : kmap) (l : list mpub) : kmap :=
     match l with
     | [] => h
